@@ -10,6 +10,16 @@ from .spy import conformance_trace, run_once_serial
 
 
 def _work(item):
+    # A harness error in one slice (for instance a non-deterministic replay caused by state that
+    # the code under test carries across executions) must not hide what the other slices find:
+    # it is returned, and only turns the whole check into a harness error if nothing else reports.
+    try:
+        return _work_inner(item)
+    except HarnessError as e:
+        return ('harness-error', [f'{item[0]} slice: {e}'])
+
+
+def _work_inner(item):
     kind = item[0]
     silence_labtech()
     if kind == 'e2':
@@ -23,7 +33,7 @@ def _work(item):
         return ('e3', outs)
     if kind == 'barrier':
         from . import e4b
-        return ('barrier', [dict(e4b.barrier_case(item[1]), case=[list(map(str, item[1][1])), item[1][2], item[1][3]])])
+        return ('barrier', [dict(e4b.barrier_case(item[1]), case=[str(x) for x in item[1][1:4]])])
     if kind == 'hash':
         from . import hashseed
         _, prop_, fam, seed_ = item
@@ -110,7 +120,11 @@ def run_e2_property(prop: str, tier: str, seed: int, configs: Iterable, *, seria
     viols: list[Violation] = []
     samples = []
     busiest = None
+    harness_errors = []
     for kind, outs in pmap(_work, items):
+        if kind == 'harness-error':
+            harness_errors.extend(outs)
+            continue
         if kind in ('e2', 'e3'):
             for o in outs:
                 n_cfg += 1
@@ -169,6 +183,8 @@ def run_e2_property(prop: str, tier: str, seed: int, configs: Iterable, *, seria
                     rejected.append((o['cfg'], o['rejected']))
                 if serial_runs <= 2:
                     samples.append({'real_serial_trace': o['trace'], 'cfg': o['cfg']})
+    if harness_errors and not viols:
+        raise HarnessError(f'{len(harness_errors)} slices failed inside the machinery, e.g. {harness_errors[0][:1500]}')
     if rejected and not viols:
         raise HarnessError(f'{len(rejected)} real runner traces rejected by SchedRunner replay although '
                            f'all oracles are silent, e.g. {rejected[0]}')
@@ -205,6 +221,8 @@ def run_e2_property(prop: str, tier: str, seed: int, configs: Iterable, *, seria
     if extra_cov:
         cov.update(extra_cov)
     res = Result(prop=prop, level='model_checking', coverage=cov, assumptions=list(assumptions), violations=viols)
+    for he in harness_errors[:3]:
+        res.notes.append(f'harness error in a slice (violations above come from the other slices): {he[:300]}')
     if capped:
         res.notes.append(f'{capped} configurations hit the per-configuration execution cap {max_exec_per_cfg}')
     return res
